@@ -1298,7 +1298,7 @@ fn run(opts: &Opts, acc: &mut Acc) {
     ] {
         acc.mark_exhaustive(sub, note);
     }
-    let n = opts.tier.pick(30_000, 1_200_000);
+    let n = opts.tier.pick(400_000, 5_000_000);
     random_genomes(acc, opts, "random", n, 400, |gn, a| check_random(gn, a));
 }
 
